@@ -301,13 +301,17 @@ static void handler(vh::Reader& r, vh::Out& o)
 	{
 		// several calls in ONE process: session <np> <path>.. <nops> then per call
 		//   el <i> <header> <list> <dim> | et <i> <header> <table> <dims> | il <i> <dim> <ign> | it <i> <dims> <ign> | cl <i>
+		//   ef <i> <header> <fexpr> <x_list> <dims>                         (Export_Function over a list of arguments)
+		//   er <i> <header> <fexpr> <xMin> <xMax> <steps> <dims> <log>      (Export_Function over a range)
 		// every path starts out absent (or, under "amb pre<N>", holding an old file); answers: il -> list, it -> table, cl -> count
 		struct Call
 		{
 			std::string kind, header;
 			long path = 0, ign = 0;
-			double dim = 1.0;
-			std::vector<double> list;
+			double dim = 1.0, a = 0.0, b = 0.0;
+			long steps = 0, lg = 0;
+			std::function<double(double)> func;
+			std::vector<double> list, xs;
 			std::vector<std::vector<double>> table;
 		};
 		struct Answer
@@ -337,6 +341,22 @@ static void handler(vh::Reader& r, vh::Out& o)
 				c.header = unhex(r.word()), c.list = r.list(), c.dim = r.num();
 			else if(c.kind == "et")
 				c.header = unhex(r.word()), c.table = r.table(), c.list = r.list();
+			else if(c.kind == "ef")
+			{
+				c.header = unhex(r.word());
+				c.func	 = vh::fun1(vh::parse_fexpr(r));
+				c.xs	 = r.list();
+				c.list	 = r.list();
+			}
+			else if(c.kind == "er")
+			{
+				c.header = unhex(r.word());
+				c.func	 = vh::fun1(vh::parse_fexpr(r));
+				c.a = r.num(), c.b = r.num();
+				c.steps = r.integer();
+				c.list	= r.list();
+				c.lg	= r.integer();
+			}
 			else if(c.kind == "il")
 				c.dim = r.num(), c.ign = r.integer();
 			else if(c.kind == "it")
@@ -362,6 +382,10 @@ static void handler(vh::Reader& r, vh::Out& o)
 				Export_List(p, c.list, c.dim, c.header);
 			else if(c.kind == "et")
 				Export_Table(p, c.table, c.list, c.header);
+			else if(c.kind == "ef")
+				Export_Function(p, c.func, c.xs, c.list, c.header);
+			else if(c.kind == "er")
+				Export_Function(p, c.func, c.a, c.b, (unsigned int) c.steps, c.list, c.lg != 0, c.header);
 			else if(c.kind == "il")
 				answers.push_back({'l', 0, Import_List(p, c.dim, (unsigned int) c.ign), {}});
 			else if(c.kind == "it")
